@@ -130,6 +130,39 @@ fn enumerate(tier: &str, seed: u64) -> Vec<P> {
     out
 }
 
+/// The same policy with every 1-of-n / n-of-n threshold of three children written as an n-ary
+/// `or` / `and` through the public enum (the string parser only builds binary ones).  The
+/// library refuses these today (`NonBinaryArgOr` / `NonBinaryArgAnd`): they are offered so that a
+/// compiler that starts accepting them is checked for meaning like every other output.
+fn to_concrete_nary(p: &P, fix: &Fix) -> Option<Concrete<Pk>> {
+    use std::sync::Arc;
+    match p {
+        P::Th(k, v) if v.len() == 3 && (*k == 1 || *k == 3) => {
+            let subs: Option<Vec<_>> = v.iter().map(|x| to_concrete_nary(x, fix).map(Arc::new)).collect();
+            let subs = subs?;
+            Some(if *k == 1 { Concrete::Or(subs.into_iter().enumerate().map(|(i, s)| (3 - i, s)).collect()) } else { Concrete::And(subs) })
+        }
+        P::Th(k, v) => {
+            let subs: Option<Vec<_>> = v.iter().map(|x| to_concrete_nary(x, fix).map(Arc::new)).collect();
+            let subs = subs?;
+            Some(if v.len() == 2 && *k == 2 {
+                Concrete::And(subs)
+            } else if v.len() == 2 && *k == 1 {
+                Concrete::Or(subs.into_iter().enumerate().map(|(i, s)| (1 + i, s)).collect())
+            } else {
+                Concrete::Thresh(miniscript::Threshold::new(*k as usize, subs).ok()?)
+            })
+        }
+        other => other.to_concrete(fix),
+    }
+}
+fn has_nary(p: &P) -> bool {
+    match p {
+        P::Th(k, v) => (v.len() == 3 && (*k == 1 || *k == 3)) || v.iter().any(has_nary),
+        _ => false,
+    }
+}
+
 struct Out {
     name: String,
     ctx_name: &'static str,
@@ -179,6 +212,7 @@ pub fn generate(fix: &Fix, tier: &str, seed: u64, out_dir: &str) {
     let mut refused = 0usize;
     let mut findings: Vec<String> = vec![];
     let mut tr_cases: Vec<(String, i32, Vec<usize>)> = vec![];
+    let (mut nary_offered, mut nary_accepted) = (0usize, 0usize);
     for p in &pols {
         let conc = match p.to_concrete(fix) {
             Some(c) => c,
@@ -191,6 +225,16 @@ pub fn generate(fix: &Fix, tier: &str, seed: u64, out_dir: &str) {
         }
         if hash_str(&show(p), 9) % 7 == 0 {
             compile_ctx::<BareCtx>(fix, p, &conc, "Bare", &mut outs, &mut refused, &mut findings);
+        }
+        // n-ary and / or through the enum (refused today)
+        if has_nary(p) {
+            if let Some(cn) = to_concrete_nary(p, fix) {
+                nary_offered += 1;
+                let before = outs.len();
+                compile_ctx::<Segwitv0>(fix, p, &cn, "Segwitv0 (n-ary enum form)", &mut outs, &mut refused, &mut findings);
+                compile_ctx::<Tap>(fix, p, &cn, "Tap (n-ary enum form)", &mut outs, &mut refused, &mut findings);
+                nary_accepted += outs.len() - before;
+            }
         }
         // taproot descriptor: internal key OR leaves
         if let Ok(Descriptor::Tr(tr)) = conc.compile_tr(Some(fix.internal.clone())) {
@@ -267,11 +311,13 @@ pub fn generate(fix: &Fix, tier: &str, seed: u64, out_dir: &str) {
         }
     }
     let info = format!(
-        "{{\"programs\": {}, \"policies\": {}, \"compilations_refused\": {}, \"taproot_descriptors\": {}, \"samples\": [{}], \"native_findings\": [{}]}}",
+        "{{\"programs\": {}, \"policies\": {}, \"compilations_refused\": {}, \"taproot_descriptors\": {}, \"nary_policies_offered\": {}, \"nary_compilations_accepted\": {}, \"samples\": [{}], \"native_findings\": [{}]}}",
         outs.len(),
         pols.len(),
         refused,
         tr_cases.len(),
+        nary_offered,
+        nary_accepted,
         samples.join(","),
         findings.iter().map(|f| format!("{{\"prop\": \"C08\", \"what\": \"{}\"}}", json_escape(f))).collect::<Vec<_>>().join(",")
     );
